@@ -489,12 +489,10 @@ impl<M: Manager, W: From<Object<M>>> Pool<M, W> {
     pub fn resize(&self, max_size: usize) {
         #[cfg(deadpool_verif)]
         crate::verif::point("resize.enter");
+        let mut slots = self.inner.slots.lock().unwrap();
         if self.inner.semaphore.is_closed() {
             return;
         }
-        #[cfg(deadpool_verif)]
-        crate::verif::point("resize.checked");
-        let mut slots = self.inner.slots.lock().unwrap();
         let old_max_size = slots.max_size;
         slots.max_size = max_size;
         // shrink pool
@@ -592,12 +590,19 @@ impl<M: Manager, W: From<Object<M>>> Pool<M, W> {
     pub fn close(&self) {
         #[cfg(deadpool_verif)]
         crate::verif::point("close.enter");
-        self.resize(0);
-        #[cfg(deadpool_verif)]
-        crate::verif::point("close.resized");
         self.inner.semaphore.close();
         #[cfg(deadpool_verif)]
         crate::verif::point("close.closed");
+        let mut slots = self.inner.slots.lock().unwrap();
+        slots.max_size = 0;
+        while let Some(mut obj) = slots.vec.pop_front() {
+            slots.size -= 1;
+            self.inner.manager.detach(&mut obj.obj);
+        }
+        slots.vec.shrink_to_fit();
+        drop(slots);
+        #[cfg(deadpool_verif)]
+        crate::verif::point("close.released");
     }
 
     /// Indicates whether this [`Pool`] has been closed.
